@@ -129,3 +129,33 @@ Theorem C20_csv_multiline_header_rewrite_refuted :
     nth 0 (nth 1 (expected_table (c_keys c) dumps) []) (FU []) = FQ (Refuted.C20_csv_multiline.T "x" ++ [nl] ++ Refuted.C20_csv_multiline.T "y").
 Proof. exact Refuted.C20_csv_multiline.C20_csv_multiline_header_rewrite_refuted. Qed.
 Print Assumptions C20_csv_multiline_header_rewrite_refuted.
+
+(* ---- extension: CSV padding count, log levels, disabled logger, truncation in the human formats ---- *)
+Theorem C20_csv_pad_fragment : forall extra : list text,
+  List.length (repeat comma (List.length extra)) = Z.to_nat (lg_csv_pad 1 (Z.of_nat (List.length extra))).
+Proof. exact frag_csv_pad. Qed.
+Print Assumptions C20_csv_pad_fragment.
+
+Theorem C20_log_level_filter : forall cfg level,
+  lg_log_emits cfg level = log_emits cfg level /\ (log_emits cfg level = true <-> (cfg <= level)%Z).
+Proof. exact (fun cfg level => conj (frag_log_emits cfg level) (log_level_filter cfg level)). Qed.
+Print Assumptions C20_log_level_filter.
+
+Theorem C20_dump_level : forall cfg st,
+  l_dump_level cfg st = (if lg_dump_disabled cfg DISABLED_ then (st, None) else (fst (l_dump st), Some (snd (l_dump st)))) /\
+  l_dump_level DISABLED_ st = (st, None) /\ (cfg <> DISABLED_ -> l_dump_level cfg st = (l0, Some (snd (l_dump st)))).
+Proof. exact (fun cfg st => conj (frag_dump_disabled cfg st) (conj (dump_disabled_noop st) (dump_enabled cfg st))). Qed.
+Print Assumptions C20_dump_level.
+
+Theorem C20_truncate : forall m s,
+  truncate m s = (if lg_truncates (Z.of_nat (List.length s)) (Z.of_nat m)
+                  then firstn (Z.to_nat (lg_truncate_keep (Z.of_nat m))) s ++ dots else s) /\
+  ((3 <= m)%nat -> (List.length (truncate m s) <= m)%nat) /\ ((List.length s <= m)%nat -> truncate m s = s).
+Proof. exact (fun m s => conj (frag_truncate m s) (conj (truncate_length m s) (truncate_short m s))). Qed.
+Print Assumptions C20_truncate.
+
+Example C20_truncate_example :
+  let T := fun s : string => list_ascii_of_string s in
+  truncate 8 (T "rollout_ab"%string) = T "rollo..."%string /\ collide 8 (T "rollout_ab"%string) (T "rollout_cd"%string) = true
+  /\ collide 8 (T "k0"%string) (T "k1"%string) = false.
+Proof. repeat split. Qed.
